@@ -233,6 +233,38 @@ pub fn run(tier: Tier) -> i32 {
             }
         }
     }
+    // a case-sensitive pair next to its case-insensitive twins (same needles, same order)
+    {
+        let pats = ["a*", "*b", "*a*", "ab", "*ab*", "b*"];
+        for (i, p1) in pats.iter().enumerate() {
+            for p2 in pats.iter().skip(i + 1) {
+                let c: Vec<Val> = vec![st(p1), st(p2), st(&format!("i{}", p1)), st(&format!("i{}", p2))];
+                for key in ["f", "str(f)"] {
+                    let c1 = c.clone();
+                    positions.push(Position {
+                        kind: "list-with-case-twins".into(),
+                        arity: 4,
+                        build: Box::new(move |p| {
+                            RuleSpec::one(Body::Map(vec![e(key, list(p.iter().map(|i| c1[*i].clone()).collect()))]))
+                        }),
+                    });
+                }
+                // the same as rows of a sequence: two rows with two needles each
+                let (a1, a2) = (p1.to_string(), p2.to_string());
+                positions.push(Position {
+                    kind: "sequence-rows-with-case-twins".into(),
+                    arity: 2,
+                    build: Box::new(move |p| {
+                        let rows = [
+                            vec![e("f", list(vec![st(&a1), st(&a2)]))],
+                            vec![e("f", list(vec![st(&format!("i{}", a1)), st(&format!("i{}", a2))]))],
+                        ];
+                        RuleSpec::one(Body::Seq(p.iter().map(|i| rows[*i].clone()).collect()))
+                    }),
+                });
+            }
+        }
+    }
     rep.stats.count("commutative_positions", positions.len() as u64);
     let parts: Vec<Stats> = positions.par_iter().map(|p| check(p, 1)).collect();
     for p in parts {
